@@ -12,6 +12,8 @@ type Time = std.Time
 type Duration = std.Duration
 type Month = std.Month
 type Location = std.Location
+type Weekday = std.Weekday
+type ParseError = std.ParseError
 
 const (
 	Nanosecond  = std.Nanosecond
@@ -21,9 +23,29 @@ const (
 	Minute      = std.Minute
 	Hour        = std.Hour
 	RFC3339     = std.RFC3339
+	RFC3339Nano = std.RFC3339Nano
+	RFC1123     = std.RFC1123
+	RFC822      = std.RFC822
+	Kitchen     = std.Kitchen
+	DateTime    = std.DateTime
+	DateOnly    = std.DateOnly
+	TimeOnly    = std.TimeOnly
+	January     = std.January
 )
 
 var UTC = std.UTC
+var Local = std.Local
+
+// clock-independent functions pass through
+func UnixMilli(ms int64) Time { return std.UnixMilli(ms) }
+func UnixMicro(us int64) Time { return std.UnixMicro(us) }
+func Date(y int, m Month, d, h, mi, s, ns int, loc *Location) Time {
+	return std.Date(y, m, d, h, mi, s, ns, loc)
+}
+func Parse(layout, value string) (Time, error)    { return std.Parse(layout, value) }
+func LoadLocation(name string) (*Location, error) { return std.LoadLocation(name) }
+func FixedZone(name string, offset int) *Location { return std.FixedZone(name, offset) }
+func Tick(d Duration) <-chan Time                 { return NewTicker(d).C }
 
 func Now() Time                                { return std.Unix(0, vsched.Now()) }
 func Unix(sec int64, nsec int64) Time          { return std.Unix(sec, nsec) }
@@ -92,3 +114,16 @@ func NewTicker(d Duration) *Ticker {
 }
 
 func (t *Ticker) Stop() { t.h.Stop() }
+
+// Reset is not used by gmqtt; it restarts the period.
+func (t *Ticker) Reset(d Duration) {
+	t.h.Stop()
+	c := t.c
+	t.h = vsched.AddTimer(int64(d), int64(d), func(now int64) {
+		select {
+		case c <- std.Unix(0, now):
+			vsched.NotifySent(vsched.S((chan<- Time)(c)))
+		default:
+		}
+	})
+}
